@@ -109,6 +109,102 @@ func leanList(as []string) string {
 	return "[" + strings.Join(xs, ", ") + "]"
 }
 
+// handlerState inspects message/v2/message.go: the MessageHandler struct must have no fields, and the
+// decode path (FromNet, FromMsgReader, fromIPLD, notEOF) must not use the receiver except to call its
+// own methods, nor anything from package sync, nor package-level variables of package v2.
+func handlerState(repo string) []string {
+	path := filepath.Join(repo, "message/v2/message.go")
+	f, err := parser.ParseFile(fset, path, nil, parser.SkipObjectResolution)
+	if err != nil {
+		die(nil, "%v", err)
+	}
+	var fields []string
+	found := false
+	pkgVars := map[string]bool{}
+	for _, d := range f.Decls {
+		gd, ok := d.(*ast.GenDecl)
+		if !ok {
+			continue
+		}
+		for _, sp := range gd.Specs {
+			switch s := sp.(type) {
+			case *ast.TypeSpec:
+				if s.Name.Name != "MessageHandler" {
+					continue
+				}
+				st, ok := s.Type.(*ast.StructType)
+				if !ok {
+					die(s, "MessageHandler is not a struct")
+				}
+				found = true
+				for _, fl := range st.Fields.List {
+					for _, n := range fl.Names {
+						fields = append(fields, fmt.Sprintf("%q", n.Name+" "+src(fl.Type)))
+					}
+					if len(fl.Names) == 0 {
+						fields = append(fields, fmt.Sprintf("%q", src(fl.Type)))
+					}
+				}
+			case *ast.ValueSpec:
+				if gd.Tok == token.VAR {
+					for _, n := range s.Names {
+						pkgVars[n.Name] = true
+					}
+				}
+			}
+		}
+	}
+	if !found {
+		die(nil, "type MessageHandler not found in %s", path)
+	}
+	if len(fields) > 0 {
+		die(nil, "message/v2 MessageHandler carries state shared by all streams of a node: %s", strings.Join(fields, ", "))
+	}
+	for _, d := range f.Decls {
+		fd, ok := d.(*ast.FuncDecl)
+		if !ok || fd.Body == nil {
+			continue
+		}
+		switch fd.Name.Name {
+		case "FromNet", "FromMsgReader", "fromIPLD", "notEOF":
+		default:
+			continue
+		}
+		recv := ""
+		if fd.Recv != nil && len(fd.Recv.List) == 1 && len(fd.Recv.List[0].Names) == 1 {
+			recv = fd.Recv.List[0].Names[0].Name
+		}
+		calls := map[ast.Expr]bool{}
+		ast.Inspect(fd.Body, func(n ast.Node) bool {
+			if ce, ok := n.(*ast.CallExpr); ok {
+				calls[ce.Fun] = true
+			}
+			return true
+		})
+		ast.Inspect(fd.Body, func(n ast.Node) bool {
+			switch e := n.(type) {
+			case *ast.SelectorExpr:
+				if id, ok := e.X.(*ast.Ident); ok {
+					if id.Name == "sync" || id.Name == "atomic" {
+						die(e, "%s uses %s on the decode path", fd.Name.Name, src(e))
+					}
+					if recv != "" && id.Name == recv && !calls[e] {
+						die(e, "%s uses handler state %s on the decode path", fd.Name.Name, src(e))
+					}
+				}
+			case *ast.Ident:
+				if pkgVars[e.Name] {
+					die(e, "%s uses the package-level variable %s on the decode path", fd.Name.Name, e.Name)
+				}
+			case *ast.GoStmt:
+				die(e, "%s starts a goroutine on the decode path", fd.Name.Name)
+			}
+			return true
+		})
+	}
+	return fields
+}
+
 func main() {
 	if len(os.Args) != 2 {
 		die(nil, "usage: streamloop <repo>")
@@ -227,6 +323,8 @@ func main() {
 		}
 	}
 
+	stateFields := handlerState(os.Args[1])
+
 	var o strings.Builder
 	w := func(format string, a ...interface{}) { fmt.Fprintf(&o, format, a...); o.WriteString("\n") }
 	w("/-")
@@ -252,6 +350,12 @@ func main() {
 	w("def onPanic : List Act := %s", leanList(onPanic))
 	w("/-- deferred, run when the function returns -/")
 	w("def deferred : List Act := %s", leanList(deferred))
+	w("/-- fields of message/v2 MessageHandler: the ONE handler instance decodes the frames of ALL streams")
+	w("    of a node, so any field (lock, buffer, reader) would be state shared between streams on the")
+	w("    decode path. The model decodes each stream as a function of that stream's bytes alone; the")
+	w("    translator refuses a handler that carries state or a decode path that touches sync / package")
+	w("    level variables. -/")
+	w("def handlerStateFields : List String := [%s]", strings.Join(stateFields, ", "))
 	w("")
 	w("end GS.Generated.StreamLoop")
 	fmt.Print(o.String())
